@@ -689,17 +689,19 @@ pub fn property() -> Property {
 // ---------------------------------------------------------------------------------------------
 // CLI (subprocess of the real `cedar` binary built from the current tree)
 
-const CLI_BIN: &str = "/verif/harness/target-cli/release/cedar";
+fn cli_bin() -> String {
+    std::env::var("VERIF_CLI_BIN").unwrap_or_else(|_| "/verif/harness/target-cli/release/cedar".to_string())
+}
 
 fn run_cli(args: &[&str]) -> Result<(i32, String, String), String> {
-    let out = std::process::Command::new(CLI_BIN).args(args).env("NO_COLOR", "1").output().map_err(|e| format!("cannot run {CLI_BIN}: {e}"))?;
+    let out = std::process::Command::new(cli_bin()).args(args).env("NO_COLOR", "1").output().map_err(|e| format!("cannot run {}: {e}", cli_bin()))?;
     Ok((out.status.code().unwrap_or(-1), String::from_utf8_lossy(&out.stdout).to_string(), String::from_utf8_lossy(&out.stderr).to_string()))
 }
 
 static CLI_COUNTER: AtomicU64 = AtomicU64::new(0);
 
 fn cli(t: &mut Tape, rec: &mut Rec<'_>) {
-    if !std::path::Path::new(CLI_BIN).exists() {
+    if !std::path::Path::new(&cli_bin()).exists() {
         rec.discard("cli-binary-missing");
         return;
     }
